@@ -1,9 +1,18 @@
-"""py2coq table for C16: the discount factor of the rate models
-(rpylib/model/levydrivensde/levyforwardmodel.py, levylibormodel.py) -> RV.Gen.GenC16Rates.
-np.searchsorted / integer subscripts / np.prod comprehension are the primitives of Base/QArr.v."""
+"""py2coq tables for C16.
+GenC16Rates : the discount factor of the rate models (levyforwardmodel.py, levylibormodel.py); np.searchsorted / integer
+              subscripts / np.prod comprehension are the primitives of Base/QArr.v.
+GenC16Coef  : the coefficient functions of the rate models (LiborSDEFunction / ForwardMarketSDEFunction sigma(t) and
+              __call__ = sigma(t) * x) and the pointwise lines of MarkovChainLevyLiborModel.sde_drift, read pointwise at
+              row i by the plug-in harness/py2coq_c16.py.
+GenC16Df    : df of every other model class (exponential of a Levy process, Levy model, Levy-driven SDE model, Levy copula
+              model, copula series, Process), domain R."""
 
 HEADER = ("From Coq Require Import ZArith QArith Qminmax Qabs Bool List.\n"
           "From RV Require Import Base.QB Base.QArr.\nOpen Scope Q_scope.\n")
+
+SDE = "rpylib/model/levydrivensde/levydrivensde.py"
+MCSDE = "rpylib/process/markovchain/markovchainsde.py"
+PW = "py2coq_c16:emit_rhs"
 
 
 def _df(py, coq, file):
@@ -15,6 +24,19 @@ def _df(py, coq, file):
             "calls": {"np.searchsorted": "searchsorted"}}
 
 
+def _sigma(py, coq):
+    return {"py": py, "coq": coq, "pyargs": ["t"],
+            "args": [("tenors", "list Q"), ("sij", "Q"), ("i", "Z"), ("t", "Q")], "ret": "Q",
+            "attrs": {"self._sigma": "sij"}, "arrays": {"self.tenors": "tenors"}, "rows": {"self.tenors": "tenors"},
+            "calls": {"np.minimum": "Qminb", "np.maximum": "Qmaxb"}}
+
+
+def _call(py, coq, sigma):
+    return {"py": py, "coq": coq, "pyargs": ["t", "x"],
+            "args": [("tenors", "list Q"), ("sij", "Q"), ("i", "Z"), ("t", "Q"), ("x", "Q")], "ret": "Q",
+            "calls": {"self.sigma": f"({sigma} tenors sij i)"}}
+
+
 SPECS = {
     "GenC16Rates": {
         "file": "rpylib/model/levydrivensde/levyforwardmodel.py",
@@ -23,6 +45,42 @@ SPECS = {
         "funcs": [
             _df("LevyForwardModel.df", "forward_df", "rpylib/model/levydrivensde/levyforwardmodel.py"),
             _df("LevyLiborModel.df", "libor_df", "rpylib/model/levydrivensde/levylibormodel.py"),
+        ],
+    },
+    "GenC16Coef": {
+        "file": SDE,
+        "dom": "Q",
+        "header": HEADER,
+        "ext": "py2coq_c16",
+        "funcs": [
+            _sigma("LiborSDEFunction.sigma", "libor_sigma_entry"),
+            _call("LiborSDEFunction.__call__", "libor_a_entry", "libor_sigma_entry"),
+            _sigma("ForwardMarketSDEFunction.sigma", "fwd_sigma_entry"),
+            _call("ForwardMarketSDEFunction.__call__", "fwd_a_entry", "fwd_sigma_entry"),
+            # MarkovChainLevyLiborModel.sde_drift, the pointwise lines (the matrix part sszz[:, 1:] @ omegas[1:] is Model/RateSDE.v)
+            {"emitter": PW, "file": MCSDE, "py": "MarkovChainLevyLiborModel.sde_drift", "target": "x_delta", "coq": "libor_x_delta",
+             "args": [("x", "Q"), ("delta", "Q")], "ret": "Q", "attrs": {"self.model.deltas": "delta"}, "rows": {}},
+            {"emitter": PW, "file": MCSDE, "py": "MarkovChainLevyLiborModel.sde_drift", "target": "omegas", "coq": "libor_omega",
+             "args": [("x_delta", "Q")], "ret": "Q", "rows": {}},
+            {"emitter": PW, "file": MCSDE, "py": "MarkovChainLevyLiborModel.sde_drift", "target": "return", "coq": "libor_drift_entry",
+             "args": [("x", "Q"), ("drift", "Q")], "ret": "Q", "rows": {}},
+        ],
+    },
+    "GenC16Df": {
+        "file": "rpylib/model/levymodel/exponentialoflevymodel.py",
+        "dom": "R",
+        "funcs": [
+            {"kind": "return_rhs", "py": "ExponentialOfLevyModel.df", "coq": "exp_df", "args": [("r", "R"), ("t", "R")],
+             "ret": "R", "attrs": {"self.r": "r"}},
+            {"file": "rpylib/model/levymodel/levymodel.py", "py": "LevyModel.df", "coq": "levy_df", "pyargs": ["t"],
+             "args": [("t", "R")], "ret": "R"},
+            {"file": SDE, "py": "LevyDrivenSDEModel.df", "coq": "sde_df", "pyargs": ["t"], "args": [("t", "R")], "ret": "R"},
+            {"file": "rpylib/model/levycopulamodel.py", "py": "LevyCopulaModel.df", "coq": "copula_df", "pyargs": ["t"],
+             "args": [("df0", "R -> R"), ("t", "R")], "ret": "R", "calls": {"self.models[0].df": "df0"}},
+            {"file": "rpylib/process/levycopulaseries.py", "py": "LevyCopula2dSeriesRepresentation.df", "coq": "series_df", "pyargs": ["t"],
+             "args": [("df0", "R -> R"), ("t", "R")], "ret": "R", "calls": {"self.model1.df": "df0"}},
+            {"file": "rpylib/process/process.py", "py": "Process.df", "coq": "process_df", "pyargs": ["t"],
+             "args": [("df0", "R -> R"), ("t", "R")], "ret": "R", "calls": {"self.model.df": "df0"}},
         ],
     },
 }
